@@ -115,7 +115,8 @@ ObsMatches(S, e) ==
 
 SameProjection(S, e) ==
   /\ e.count = S.count /\ Rng(e.live) = S.live
-  /\ \A s \in 1..S.count : e.links[s] = LinkTuples(S)[s] /\ e.val[s] = S.val[s]
+  \* (links reported by removed slots are not part of the specification's state, see SoftClauses)
+  /\ \A s \in 1..S.count : (s \in S.live => e.links[s] = LinkTuples(S)[s]) /\ e.val[s] = S.val[s]
   /\ Rng(e.drain) = Rng(S.avail) /\ Len(e.drain) = Len(S.avail)
   /\ \A i \in DOMAIN e.isrem : e.isrem[i][2] = (IF IsRemovedTok(S, e.isrem[i][1]) THEN 1 ELSE 0)
   /\ e.cap >= S.capLow
